@@ -19,44 +19,51 @@ def listener_scheduling(ctx: Ctx):
     import random
     from harness import tlc, traces
     from harness import drive_tclisten as dt
-    c = {"EndT": "3", "MaxEv": "5" if ctx.quick else "6", "Delays": "{0, 1, 2}", "Prios": "{1, 5}", "OldClockDuringTC": "FALSE"}
+    c = {"EndT": "3", "MaxEv": "5" if ctx.quick else "6", "Delays": "{0, 1, 2}", "Prios": "{1, 5}", "StepMode": "FALSE", "OldClockDuringTC": "FALSE"}
     invs, props = ["NothingInThePast", "AboutIsAnnounced", "TCIsEventTime"], ["ClockMonotone", "TCMonotone"]
     files, mod, cfg = tlc.mc_files("MC_ClockListeners", "ClockListeners", c, invariants=invs, properties=props)
     r = tlc.run(mod, cfg, extra_files=files, workers=8, timeout=1800)
     ctx.add_tlc("ClockListeners: handlers and TIME_CHANGED listeners schedule events", r)
     if not r.ok:
         raise tlc.MachineryError(f"ClockListeners.tla violates {r.violated}")
+    files, mod, cfg = tlc.mc_files("MC_ClockListeners", "ClockListeners", dict(c, StepMode="TRUE"), invariants=invs, properties=props)
+    r = tlc.run(mod, cfg, extra_files=files, workers=8, timeout=1800)
+    ctx.add_tlc("ClockListeners, events executed by step()", r)
+    if not r.ok:
+        raise tlc.MachineryError(f"ClockListeners.tla (step mode) violates {r.violated}")
     # vacuity guard: with the pinned tree's deviation (the clock is moved only after the announcement) the specification is refuted
     files, mod, cfg = tlc.mc_files("MC_ClockListeners", "ClockListeners", dict(c, OldClockDuringTC="TRUE"), invariants=invs, properties=props)
     rb = tlc.run(mod, cfg, extra_files=files, workers=8, timeout=1800)
     if rb.ok:
         raise tlc.MachineryError("ClockListeners.tla with OldClockDuringTC = TRUE was not refuted")
     ctx.binding["clock_listeners_deviation_refuted"] = rb.violated
-    trs, labels = [], []
-    for i in range(ctx.pick(120, 1200)):
-        conc = ("float", "int", "dur", "mixed")[i % 4]
-        tr, errors = dt.run_model(conc, random.Random(ctx.seed * 7919 + i), end_t=ctx.rng.choice([4, 6]))
-        ctx.evaluations += 1
-        if errors:
-            ctx.violation("listener_sched|" + errors[0].split()[0], f"listener-scheduling model {i} ({conc}): {errors}", {"trace": tr})
-            continue
-        trs.append(tr); labels.append(f"listener-scheduling model {i} ({conc} clock)")
-        ctx.distinct.add(("tcl", tuple((e["a"], e.get("by"), e.get("d")) for e in tr)))
-    tc = {"EndT": "100000", "MaxEv": "100000", "Delays": "{0, 1, 2, 3}", "Prios": "{1, 5, 10}", "OldClockDuringTC": "FALSE"}
-    tmod = "---- MODULE TraceClockListeners_gen ----\nEXTENDS TraceClockListeners\n" + "\n".join(f"c_{k} == {v}" for k, v in tc.items()) + "\n====\n"
-    tcfg = ("SPECIFICATION TraceSpec\nCONSTANTS\n" + "\n".join(f"  {k} <- c_{k}" for k in tc) + "\nCONSTRAINT Progress\nPOSTCONDITION Post\n" +
-            "INVARIANT InvNothingInThePast\nINVARIANT InvAboutIsAnnounced\nINVARIANT InvTCIsEventTime\nPROPERTY PropClockMonotone\nPROPERTY PropTCMonotone\nCHECK_DEADLOCK FALSE\n")
-    rej, st = traces.validate("TraceClockListeners_gen", "TraceClockListeners_gen.cfg", trs, extra_files={"TraceClockListeners_gen.tla": tmod, "TraceClockListeners_gen.cfg": tcfg}, timeout=1800)
-    ctx.states += st["distinct"]; ctx.transitions += st["generated"]
-    ctx.tlc_runs.append({"model": "TraceClockListeners", "traces": len(trs), **{k: (round(v, 2) if isinstance(v, float) else v) for k, v in st.items()}})
-    ctx.traces += len(trs)
-    for rj in rej:
-        e = rj.event or {}
-        key = f"listener_sched|{e.get('a')}|{e.get('by', '-')}"
-        ctx.violation(key, f"{labels[rj.index]}: events 1..{rj.upto} are a behaviour of ClockListeners.tla, event {rj.upto + 1} {e} is not "
-                           "(an event scheduled relative to the simulation time got another time, or the clock / the TIME_CHANGED stream went backwards)",
-                      {"trace": rj.trace, "explained": rj.upto})
-    nl = sum(1 for t in trs for e in t if e["a"] == "Sched" and e["by"] == "listener")
+    nl = 0
+    for step_mode in (False, True):
+        trs, labels = [], []
+        for i in range(ctx.pick(120, 1200) if not step_mode else ctx.pick(60, 600)):
+            conc = ("float", "int", "dur", "mixed")[i % 4]
+            tr, errors = dt.run_model(conc, random.Random(ctx.seed * 7919 + i + (500000 if step_mode else 0)), end_t=ctx.rng.choice([4, 6]), step_mode=step_mode)
+            ctx.evaluations += 1
+            if errors:
+                ctx.violation("listener_sched|" + errors[0].split()[0], f"listener-scheduling model {i} ({conc}{', step()' if step_mode else ''}): {errors}", {"trace": tr})
+                continue
+            trs.append(tr); labels.append(f"listener-scheduling model {i} ({conc} clock{', executed by step()' if step_mode else ''})")
+            ctx.distinct.add(("tcl", step_mode, tuple((e["a"], e.get("by"), e.get("d")) for e in tr)))
+        tc = {"EndT": "100000", "MaxEv": "100000", "Delays": "{0, 1, 2, 3}", "Prios": "{1, 5, 10}", "StepMode": "TRUE" if step_mode else "FALSE", "OldClockDuringTC": "FALSE"}
+        tmod = "---- MODULE TraceClockListeners_gen ----\nEXTENDS TraceClockListeners\n" + "\n".join(f"c_{k} == {v}" for k, v in tc.items()) + "\n====\n"
+        tcfg = ("SPECIFICATION TraceSpec\nCONSTANTS\n" + "\n".join(f"  {k} <- c_{k}" for k in tc) + "\nCONSTRAINT Progress\nPOSTCONDITION Post\n" +
+                "INVARIANT InvNothingInThePast\nINVARIANT InvAboutIsAnnounced\nINVARIANT InvTCIsEventTime\nPROPERTY PropClockMonotone\nPROPERTY PropTCMonotone\nCHECK_DEADLOCK FALSE\n")
+        rej, st = traces.validate("TraceClockListeners_gen", "TraceClockListeners_gen.cfg", trs, extra_files={"TraceClockListeners_gen.tla": tmod, "TraceClockListeners_gen.cfg": tcfg}, timeout=1800)
+        ctx.states += st["distinct"]; ctx.transitions += st["generated"]
+        ctx.tlc_runs.append({"model": f"TraceClockListeners (step mode {step_mode})", "traces": len(trs), **{k: (round(v, 2) if isinstance(v, float) else v) for k, v in st.items()}})
+        ctx.traces += len(trs)
+        for rj in rej:
+            e = rj.event or {}
+            key = f"listener_sched|{e.get('a')}|{e.get('by', '-')}"
+            ctx.violation(key, f"{labels[rj.index]}: events 1..{rj.upto} are a behaviour of ClockListeners.tla, event {rj.upto + 1} {e} is not "
+                               "(an event scheduled relative to the simulation time got another time, or the clock / the TIME_CHANGED stream went backwards)",
+                          {"trace": rj.trace, "explained": rj.upto})
+        nl += sum(1 for t in trs for e in t if e["a"] == "Sched" and e["by"] == "listener")
     ctx.notes["listener_scheduled_events"] = nl
     if trs and nl < 20 and not ctx.violations:
         raise tlc.MachineryError("vacuity: the TIME_CHANGED listeners scheduled almost nothing")
